@@ -73,7 +73,8 @@ claim("C02",
       "Rocq theorem C02_noop over the Gallina world model: for ALL worlds, ALL views (reachable or not) and ALL actions, if the "
       "action's precondition (source controlled, firewall allows source->target, action-specific guard) fails then step returns "
       "exactly the previous view and the identical world (Leibniz equality of every table); C02_pre_* spell the preconditions out "
-      "per action type as the property states them. Tie: correspondence of Model/World.v with the six action implementations on "
+      "per action type as the property states them; C02_whole_game (coordinator model running on the world model: such an action "
+      "leaves the world as it is, the view stored for and reported to the agent is the view it had, nobody else's record changes). Tie: correspondence of Model/World.v with the six action implementations on "
       "walks over shipped and generated scenarios (firewall on/off, perturbed unreachable views, parameters over non-existing "
       "hosts/services/data); the ops whose precondition fails are the ones counted for this property; an independent Python "
       "reference of the statement supplies failing inputs.", W_NOTE, W_TECH, "DESIGN.md section 7, C02")
@@ -106,7 +107,8 @@ claim("C11",
 claim("C12",
       "Rocq theorems over the multi-agent state machine: C12_own / C12_no_gift (an action of agent b leaves every other agent's "
       "view exactly as it was), C12_channel (a step depends on the world only through hosts, networks, services, data, firewall and "
-      "visible blocks), C12_world_changes (another agent can change those only by a successful exfiltration or BlockIP). Tie: "
+      "visible blocks), C12_world_changes (another agent can change those only by a successful exfiltration or BlockIP), C12_coordinator_no_channel "
+      "(the coordinator adds no other channel: the handler of one address leaves every other agent's record untouched). Tie: "
       "correspondence on interleavings of 2-3 agents sharing hosts (common exfiltration target, overlapping control) plus deep "
       "snapshots of all agents' stored views (aliasing is outside the value-semantic model: partial).", W_NOTE, W_TECH, "DESIGN.md section 7, C12")
 
